@@ -30,6 +30,9 @@ func init() {
 				FuncSpec{In: []Label{{"", 2, ""}}, Out: []Label{{"a", 0, ""}}},
 				FuncSpec{In: []Label{{"b", 1, ""}}, Out: []Label{{"", 2, ""}}, OutForm: FormPositional},
 				FuncSpec{In: nil, Out: []Label{tl[2]}, InForm: FormPositional, OutForm: FormPositional},
+				// a converter supplied through a generator, and a run-once provider
+				FuncSpec{In: []Label{tl[1]}, Out: []Label{tl[0]}, InForm: FormPositional, OutForm: FormStruct, Gen: true},
+				FuncSpec{In: nil, Out: []Label{tl[2]}, InForm: FormPositional, OutForm: FormStruct, Once: true},
 			)
 		}
 		maxConvs, maxParams, maxIn := 2, 1, 1
@@ -86,6 +89,97 @@ func init() {
 								}
 							}
 						}
+					}
+				}
+			}
+		}
+	})
+
+	// ---- built1: conv1 with functions assembled by BuildFunc over NewValueSet
+	reg("built1", "as conv1 (one converter T1->T0, every label pair incl. named values with subtypes, <=1 input) with the converter, the target, or both assembled with BuildFunc", func(size int, emit func(Scenario)) {
+		Tiers["conv1"].Gen(0, func(s Scenario) {
+			for _, v := range [][2]bool{{true, false}, {false, true}, {true, true}} {
+				s2 := s
+				s2.Convs = append([]FuncSpec{}, s.Convs...)
+				if v[0] {
+					s2.Convs[0].Built, s2.Convs[0].HasErr = true, true
+				}
+				if v[1] {
+					s2.Target.Built, s2.Target.HasErr = true, true
+				}
+				emit(s2)
+			}
+		})
+	})
+
+	// ---- subconv: converters within one type, between names and subtypes
+	reg("subconv", "one converter over a single type T0 whose input and output labels differ in name and/or subtype (e.g. a:T0 -> a:T0/x); 1 parameter over the same labels; <=1 input", func(size int, emit func(Scenario)) {
+		ls := labelsOver([]int{0}, []string{"", "a", "b"}, []string{"", "x", "y"})
+		for _, tp := range ls {
+			for _, ci := range ls {
+				for _, co := range ls {
+					if ci == co {
+						continue
+					}
+					for _, in := range subsetsUpTo(len(ls), 1) {
+						emit(Scenario{
+							Target: FuncSpec{ID: "tgt", In: []Label{tp}, Out: []Label{{"", 2, ""}}, OutForm: FormPositional},
+							Inputs: mkInputs(pick(ls, in)),
+							Convs:  []FuncSpec{{ID: "c1", In: []Label{ci}, Out: []Label{co}}},
+						})
+					}
+				}
+			}
+		}
+	})
+
+	// ---- subdup: targets with two type-only parameters of one type and different subtypes
+	reg("subdup", "targets with two type-only parameters of one type that differ in subtype (plus optionally a third parameter), 0-2 inputs; outside C06's well-formedness, used for the reporting oracles only", func(size int, emit func(Scenario)) {
+		targets := [][]Label{
+			{{"", 0, "x"}, {"", 0, "y"}},
+			{{"", 0, ""}, {"", 0, "x"}},
+			{{"", 0, "x"}, {"", 0, "y"}, {"a", 1, ""}},
+			{{"", 0, "y"}, {"", 0, "x"}, {"", 1, ""}},
+		}
+		ins := []Label{{"", 0, "x"}, {"", 0, "y"}, {"", 0, ""}, {"", 1, ""}, {"a", 1, ""}, {"b", 0, "x"}}
+		for _, t := range targets {
+			for _, in := range subsetsUpTo(len(ins), 2) {
+				if !inputsDistinct(pick(ins, in)) {
+					continue
+				}
+				tg := mkTarget(t)
+				tg.InForm = FormStruct
+				emit(Scenario{Target: tg, Inputs: mkInputs(pick(ins, in))})
+			}
+		}
+	})
+
+	// ---- redefptr: Redefine over composite (pointer) types, whose reflect Name() is empty
+	reg("redefptr", "Redefine with type-only / named parameters of pointer types *T0, *T1 (and T0): 1-2 parameters, <=1 supplied input, <=1 converter among *T0->*T1, T0->*T0, *T1->T0; filters over subsets of {T0,*T0,*T1}", func(size int, emit func(Scenario)) {
+		labels := []Label{{"", TP0, ""}, {"", TP1, ""}, {"", 0, ""}, {"p", TP0, ""}, {"q", TP1, ""}}
+		convs := []*FuncSpec{nil,
+			{ID: "c0", In: []Label{{"", TP0, ""}}, Out: []Label{{"", TP1, ""}}, InForm: FormPositional, OutForm: FormPositional},
+			{ID: "c0", In: []Label{{"", 0, ""}}, Out: []Label{{"", TP0, ""}}, InForm: FormPositional, OutForm: FormPositional},
+			{ID: "c0", In: []Label{{"", TP1, ""}}, Out: []Label{{"", 0, ""}}, InForm: FormPositional, OutForm: FormPositional},
+		}
+		filters := [][]int{nil, {TP0}, {TP1}, {0}, {TP0, TP1}, {0, TP0, TP1}}
+		for _, tp := range subsetsUpTo(len(labels), 2) {
+			if len(tp) == 0 || !wellFormed(pick(labels, tp)) {
+				continue
+			}
+			for _, in := range subsetsUpTo(len(labels), 1) {
+				for _, c := range convs {
+					for fi, f := range filters {
+						s := Scenario{Mode: "redefine",
+							Target: FuncSpec{ID: "tgt", In: pick(labels, tp), InForm: formFor(pick(labels, tp)), Out: []Label{{"", 2, ""}}, OutForm: FormPositional},
+							Inputs: mkInputs(pick(labels, in))}
+						if c != nil {
+							s.Convs = []FuncSpec{*c}
+						}
+						if fi > 0 {
+							s.HasFilter, s.FilterIn = true, f
+						}
+						emit(s)
 					}
 				}
 			}
